@@ -21,6 +21,7 @@ import (
 	"net"
 	"reflect"
 	"slices"
+	"sync"
 
 	"github.com/google/cel-go/cel"
 	"github.com/google/cel-go/common/operators"
@@ -137,7 +138,32 @@ func (networksLib) ProgramOptions() []cel.ProgramOption {
 }
 
 func (networksLib) CompileOptions() []cel.EnvOption {
-	var networkInstances []IPNetworks
+	// the already created networks are remembered. As expressions are evaluated concurrently,
+	// the access to these must be synchronized.
+	var (
+		networkInstances []IPNetworks
+		mut              sync.Mutex
+	)
+
+	lookup := func(addresses []string) (IPNetworks, error) {
+		mut.Lock()
+		defer mut.Unlock()
+
+		for _, net := range networkInstances {
+			if slices.Equal(net.cidrs, addresses) {
+				return net, nil
+			}
+		}
+
+		networks, err := newIPNetworks(addresses)
+		if err != nil {
+			return IPNetworks{}, err
+		}
+
+		networkInstances = append(networkInstances, networks)
+
+		return networks, nil
+	}
 
 	return []cel.EnvOption{
 		// IPNetworks specific functions
@@ -145,20 +171,10 @@ func (networksLib) CompileOptions() []cel.EnvOption {
 			cel.Overload("networks_from_cidr",
 				[]*cel.Type{cel.StringType}, ipNetworksType,
 				cel.UnaryBinding(func(netVal ref.Val) ref.Val {
-					addresses := []string{netVal.Value().(string)} // nolint: forcetypeassert
-
-					for _, net := range networkInstances {
-						if slices.Equal(net.cidrs, addresses) {
-							return net
-						}
-					}
-
-					networks, err := newIPNetworks(addresses)
+					networks, err := lookup([]string{netVal.Value().(string)}) // nolint: forcetypeassert
 					if err != nil {
 						return types.WrapErr(err)
 					}
-
-					networkInstances = append(networkInstances, networks)
 
 					return networks
 				}),
@@ -174,18 +190,10 @@ func (networksLib) CompileOptions() []cel.EnvOption {
 					addresses := cidrs.([]string) // nolint: forcetypeassert
 					slices.Sort(addresses)
 
-					for _, net := range networkInstances {
-						if slices.Equal(net.cidrs, addresses) {
-							return net
-						}
-					}
-
-					networks, err := newIPNetworks(addresses)
+					networks, err := lookup(addresses)
 					if err != nil {
 						return types.WrapErr(err)
 					}
-
-					networkInstances = append(networkInstances, networks)
 
 					return networks
 				}),
